@@ -110,6 +110,8 @@ def _configure(mode):
 def _sched_spec(r, horizon_hint=None, max_pre=4):
     d = r.choice([0, 1, 1, 2, 2, 3, max_pre])
     pre = [["frac", r.random()] for _ in range(d)]
+    if r.random() < 0.25:
+        pre.append(["shallow", 0, r.random()])     # at an API-level line (plug-in / key-agreement wrapper)
     return pre, [r.randrange(1000) for _ in range(24)]
 
 
@@ -189,12 +191,20 @@ def _gen_curve(w, s, curve, instr=False):
     order = _order(curve)
     nthreads = w.choice([2, 2, 2, 3])
     progs = [_prog(w, curve, order) for _ in range(nthreads)]
+    if curve == "nist256p" and w.random() < 0.35:
+        # one private-key object, two threads, different peers
+        a = w.randrange(3)
+        progs = [[["dhshared", a]], [["dhshared", (a + 1 + w.randrange(2)) % 3]]]
     # make sure somebody uses the generator so that the table is built inside the run
     if not any(op[0] in ("mulG", "muladd", "keygen", "signverify", "verifyP") for p in progs for op in p):
         progs[0].insert(0, ["mulG", w.randrange(2, order)])
     pre, ch = _sched_spec(s)
-    return {"part": "curve", "curve": curve, "progs": progs, "world": w.getrandbits(32),
+    case = {"part": "curve", "curve": curve, "progs": progs, "world": w.getrandbits(32),
             "preempt": pre, "choices": ch, "instr": instr}
+    if progs[0][0][0] == "dhshared":
+        case["first"] = 0
+        case["preempt"] = [["shallow", 0, s.random()]] + pre[:1]
+    return case
 
 
 # systematic single-pre-emption sweeps (thorough tier): for each configuration, thread 0 is pre-empted at its
@@ -421,6 +431,11 @@ def _resolve_pre(p, horizon, dry):
     if p[0] == "localfrac":
         n = max(1, dry.threads[int(p[1])].steps)
         return ("local", int(p[1]), 1 + int(p[2] * n))
+    if p[0] == "shallow":
+        cand = [st for tid, st in dry.shallow_steps if tid == int(p[1])]
+        if not cand:
+            return -1
+        return ("local", int(p[1]), cand[int(p[2] * len(cand)) % len(cand)])
     raise ValueError(p)
 
 
@@ -607,7 +622,7 @@ def _run_curve(case, out):
     marks = {}
 
     def build(world, preempt, choices, watch):
-        s = sched.Sched(preempt=[p for p in preempt if isinstance(p, int)], choices=choices,
+        s = sched.Sched(preempt=[p for p in preempt if isinstance(p, int) and p > 0], choices=choices,
                         max_steps=5_000_000)
         s.preempt_local = {(p[1], p[2]) for p in preempt if not isinstance(p, int)}
 
@@ -628,7 +643,9 @@ def _run_curve(case, out):
         # sequential reference on a fresh world (also the dry run that measures step counts)
         w0 = _make_world(case)
         try:
+            from sim import conc as _conc
             dry = build(w0, [], [], False)
+            dry.shallow_files = _conc.shallow_files()
             dry.run(first=0)
         finally:
             _drop_world(w0)
